@@ -194,7 +194,11 @@ type AnExpression struct {
 	Expression ExpressionInterface
 }
 
-func (e *AnExpression) MarshalXML(en *xml.Encoder, start xml.StartElement) (err error) {
+// MarshalXML has a value receiver so that it is also used for AnExpression
+// fields that are not pointers (e.g. the condition of a conditional event
+// definition): with a pointer receiver encoding/xml silently falls back to the
+// default struct encoding there and the expression's type and text are lost.
+func (e AnExpression) MarshalXML(en *xml.Encoder, start xml.StartElement) (err error) {
 	switch tt := e.Expression.(type) {
 	case *FormalExpression:
 		start.Attr = append(start.Attr, xml.Attr{
